@@ -33,5 +33,15 @@ from _seed import seed_uw as _seed_uw
 HARNESSES.append(dict(COMMON, name="loc_nested_numa_s2", entry="h_location", defines={"TYPE": 0, "TPL": 6, "OPP": 0, "FIX_S2": 1}, units=["hwloc/bitmap.c", "hwloc/traversal.c"], unwind=14,
                       unwindset=_seed_uw(**dict(COMMON["unwindset"])), encoded=EVAL, tiers={"quick": {}, "thorough": {}},
                       bounds="location pack:<d>.numa:all on seed S2 (packages {0,1,2} and {5}, NUMA#0 inside package 0, a CPU-less NUMA#2 attached to the machine), digits 0..5, logical/physical symbolic, arbitrary accumulators", cost=60))
-OUTSIDE = ["process-level behaviour of the tools: exit statuses, option parsing in main(), output formats, --largest/-I/-N/-H consistency", "lstopo exports = library exports, hwloc-diff | hwloc-patch pipeline (library side: C16)", "hwloc-distrib (arithmetic: C09 distrib)",
+OUT_UW = dict(COMMON["unwindset"], **{"h_number_intersect.%d" % k: 98 for k in range(8)}); OUT_UW.update({"largest_case.0": 98, "h_largest.0": 17, "h_largest.1": 17, "h_largest.2": 17, "strlen.0": 40, "strcpy.0": 40, "vsnprintf.0": 40, "strchr.0": 40, "strcspn.0": 40, "strcspn.1": 12, "strspn.0": 40, "strspn.1": 12})
+OUTF = ["hwloc_calc_output", "hwloc_calc_get_next_obj_covering_set_by_depth", "hwloc_calc_intersects_set", "hwloc_calc_check_object_filtered", "hwloc_obj_type_snprintf", "hwloc_get_first_largest_obj_inside_cpuset"]
+for ot, nm in ((0, "pu"), (1, "package"), (2, "numa")):
+    HARNESSES.append(dict(COMMON, src="C20_output.c", name="out_number_intersect_%s" % nm, entry="h_number_intersect", defines={"OTYPE": ot}, encoded=OUTF, unwind=12, unwindset=OUT_UW, tiers={"quick": {}, "thorough": {}}, cost=40,
+                          stubs=COMMON["stubs"] + ["stdout: printf redirected to a capture buffer; main() of hwloc-calc.c renamed, its option variables set by the harness"],
+                          bounds="hwloc_calc_output in -N and -I mode for the %s level: ANY cpuset over 8 bits and nodeset over 4 bits, logical or physical output indexes, with or without the type prefix: -N = number of indexes -I lists = objects of the level intersecting the set" % nm))
+for k in range(5):
+    HARNESSES.append(dict(COMMON, src="C20_output.c", name="out_largest_%d" % k, entry="h_largest", defines={"NSLICE": 5, "SLICE": k}, encoded=OUTF + EVAL, unwind=12, unwindset=OUT_UW, tiers={"quick": {}, "thorough": {}}, cost=60,
+                          stubs=COMMON["stubs"] + ["stdout: printf redirected to a capture buffer"],
+                          bounds="hwloc_calc_output in --largest mode for every non-empty subset of the PUs {0,1,2,5}, logical and physical output: the printed objects are accepted by the location evaluator, pairwise disjoint, and their union is the set (concrete runs selected by symbolic inputs, slice %d of 5)" % k))
+OUTSIDE = ["process-level behaviour of the tools: exit statuses, option parsing in main(), -H, --single and the set formats of the default output mode", "lstopo exports = library exports, hwloc-diff | hwloc-patch pipeline (library side: C16)", "hwloc-distrib (arithmetic: C09 distrib)",
            "I/O, Misc and filter ([...]) locations, raw cpuset strings (C04 parsers)"]
